@@ -1,6 +1,7 @@
 package chunk
 
 import (
+	"bytes"
 	"io"
 	"math/bits"
 	"strconv"
@@ -62,14 +63,11 @@ func zzvCheckLossless(id string, chunks [][]byte, in []byte) {
 	if total != len(in) {
 		return
 	}
-	k := 0
-	same := true
+	var cat []byte
 	for _, c := range chunks {
-		for _, b := range c {
-			same = same && b == in[k]
-			k++
-		}
+		cat = append(cat, c...)
 	}
+	same := bytes.Equal(cat, in)
 	verifrt.Assert("C06."+id+".concat-equals-input", same)
 }
 
